@@ -54,6 +54,45 @@ UNITS += [
          funcs=[CS + ": detail::counting_semaphore::signal"], min_obligations=40),
 ]
 
+SS = "libs/pika/synchronization/src/detail/sliding_semaphore.cpp"
+LOOP_SWAIT = """
+__CPROVER_assigns(W_FRAME)
+__CPROVER_loop_invariant(OWNS_P(l) && RANGE && g_cs_lower == self->lower_limit_ && g_waits >= 0 && g_waits <= 2 && g_releases >= 0 && g_releases <= 2)
+"""
+LOOP_SSIGNAL = """
+__CPROVER_assigns(count, l, S_FRAME)
+__CPROVER_loop_invariant(l.owns && l.m == mtx && mtx == g_mtx && mtx->held && RANGE && g_cs_lower <= self->lower_limit_)
+__CPROVER_loop_invariant(g_orig <= count || g_orig == 0)
+__CPROVER_loop_invariant(g_orig >= 0 && (count <= 0 ==> g_orig == 0))
+__CPROVER_loop_invariant(g_releases == 0 ? (self->lower_limit_ == VX_MAX(lower_limit, vx_l0) && g_notifies == 0) : g_first_rel_lower == VX_MAX(lower_limit, vx_l0))
+__CPROVER_loop_invariant(g_notifies >= 0 && g_notifies <= 2 && g_releases >= 0 && g_releases <= 2 && (g_notifies == 0) == (g_releases == 0))
+"""
+UNITS += [
+    Unit("ssem.wait", "sliding.c", defines=["U_WAIT"], enforce="wait",
+         lifts={"body": Lift(SS, r"void sliding_semaphore::wait\(", rules=[
+             Call(r"cond_\.wait", "cv_wait(&self->cond_, {0})", 1), Members(["max_difference_", "lower_limit_"])],
+             loops={1: LOOP_SWAIT, "count": 1})},
+         funcs=[SS + ": detail::sliding_semaphore::wait"], min_obligations=20),
+    Unit("ssem.try_wait", "sliding.c", defines=["U_TRY_WAIT"], enforce="try_wait", replace=["wait"],
+         lifts={"body": Lift(SS, r"bool sliding_semaphore::try_wait\(", rules=[
+             Call(r"\bwait", "wait(self, {0}, {1})", 1), Members(["max_difference_", "lower_limit_"])])},
+         funcs=[SS + ": detail::sliding_semaphore::try_wait"], min_obligations=10),
+    Unit("ssem.signal", "sliding.c", defines=["U_SIGNAL"], enforce="signal",
+         lifts={"body": Lift(SS, r"void sliding_semaphore::signal\(", rules=[
+             Sub(r"mutex_type\* mtx = l\.mutex\(\);", "struct vx_mutex* mtx = l.m; int64_t vx_l0 = self->lower_limit_;", 1),
+             Sub(r"\(std::max\)", "VX_MAX", 1),
+             Call(r"cond_\.size", "cv_size(&self->cond_, &{0})", 1),
+             Sub(r"std::move\(l\)", "ulock_move(&l)", 1),
+             Call(r"cond_\.notify_one", "cv_notify_one(&self->cond_, {0})", 1),
+             Sub(r"l = std::unique_lock<mutex_type>\(\*mtx\);", "ulock_assign(&l, ulock_make(mtx));", 1),
+             Guard(r"^\{", "{", "ulock_dtor(&l);", 1),
+             Members(["lower_limit_"])], loops={1: LOOP_SSIGNAL, "count": 1})},
+         funcs=[SS + ": detail::sliding_semaphore::signal"], min_obligations=30),
+    Unit("ssem.set_max_difference", "sliding.c", defines=["U_SET_MAX_DIFFERENCE"], enforce="set_max_difference",
+         lifts={"body": Lift(SS, r"void sliding_semaphore::set_max_difference\(", rules=[Members(["max_difference_", "lower_limit_"])])},
+         funcs=[SS + ": detail::sliding_semaphore::set_max_difference"]),
+]
+
 META = {
     "trusted_base": [
         "specs/C08/sem.h cv_wait/cv_wait_until/cv_notify_one/cv_size: contract of detail::condition_variable as seen by a "
